@@ -48,8 +48,8 @@ CLAIMS = {
         "note": TB + "The conversions on maps with objects (slider -> drum-roll splice, pattern generation) have float-driven trip counts and slider geometry and are outside.",
     },
     "C03": {
-        "text": "Gradual performance, builder level: the {Osu,Mania}GradualPerformance literal is built around an S1 difficulty state (N <= 2 quick, 3 thorough), the mode's one-shot calculate() is a recording stub, and one next / nth(n) (any n) / last call must hand over exactly: the attributes of the processed prefix, the gradual Difficulty with passed_objects(idx), the given score state (all fields, any u32), no accuracy/priority leak; it processes min(n+1, remaining) objects and returns None exactly when nothing remains. Native replay compares the real gradual result with the real one-shot Performance on the prefix.",
-        "note": TB + "Taiko and catch gradual performance (same chain) are not encoded; calculators are assumed deterministic in their builder; inner bookkeeping is C02/C15.",
+        "text": "Gradual performance, builder level: the {Osu,Mania,Catch}GradualPerformance literal is built around an S1 difficulty state (N <= 1 quick, 3 thorough), the mode's one-shot calculate() is a recording stub, and one next / nth(n) (any n) / last call must hand over exactly: the attributes of the processed prefix, the gradual Difficulty with passed_objects(idx), the given score state (all fields, any u32), no accuracy/priority leak; it processes min(n+1, remaining) objects and returns None exactly when nothing remains. Native replay compares the real gradual result with the real one-shot Performance on the prefix.",
+        "note": TB + "Taiko gradual performance (same chain) is not encoded; calculators are assumed deterministic in their builder; inner bookkeeping is C02/C15.",
     },
     "C04": {
         "text": "Attribute reuse, builder level: with the mode's difficulty entry replaced by a ghost-attribute stub, a map-backed builder of each of the four modes calls it exactly once with its own Difficulty, then holds the ghost attributes, generates the same state as, and equals field by field, the attribute-backed builder with the same setters (every subset of provided values, passed_objects, lazer, legacy mods, priority); every IntoPerformance / IntoModePerformance conversion yields that same builder; osu!'s zero-hit calculate() embeds the given difficulty attributes.",
